@@ -314,7 +314,7 @@ Proof.
   exists (length (futs s)). split; [reflexivity|]. split.
   - unfold repo_get, repo_set. cbn.
     assert (Hk : key_eqb pk pk = true).
-    { destruct pk as [[[a b] c] e]. cbn. rewrite !Z.eqb_refl. reflexivity. }
+    { destruct pk as [[[[a b] c] e] g0]. cbn. rewrite !Z.eqb_refl. reflexivity. }
     rewrite Hk. reflexivity.
   - split; [|split; reflexivity].
     unfold get_from_dep.
